@@ -84,7 +84,7 @@ def run_cases(ctx, n_libs: int, per_lib: int, focus: str):
                 return a
 
         gen = TypedGen(rng, lib)
-        reqs, keep, spec_reqs, eff_reqs, elab_reqs = [], [], [], [], []
+        reqs, keep, spec_reqs, eff_reqs, elab_reqs, query_reqs, query_want = [], [], [], [], [], [], []
         for _ in range(per_lib):
             op = rng.choice(["Select", "Select", "Where", "SelectMany"])
             try:
@@ -159,6 +159,8 @@ def run_cases(ctx, n_libs: int, per_lib: int, focus: str):
             spec_reqs.append(("streamOpTy", [model, op, '(cls "Evt" ())', lam_enc]))
             eff_reqs.append(("streamOpEff", [model, '(cls "Evt" ())', lam_enc]))
             elab_reqs.append(("streamOpElab", [model, '(cls "Evt" ())', lam_enc]))
+            query_reqs.append(("streamOpQuery", [model, op, enc(ds.query_ast), '(cls "Evt" ())', lam_enc]))
+            query_want.append(("ok", f"({enc(got[1].query_ast)} {ty_sexpr(got[1].item_type, ns)} ({' '.join(q(t[0]) for t in log)}))") if got[0] == "ok" else None)
             if got[0] == "ok":
                 s = got[1]
                 node = s.query_ast.args[0]
@@ -205,6 +207,15 @@ def run_cases(ctx, n_libs: int, per_lib: int, focus: str):
             ctx.dist["spec:emitted-lambda-compared"] += 1
             if (st, payload) != ("ok", impl_lam):
                 ctx.disagree("streamOpElab(spec)", {k: v for k, v in case.items() if k != "class_model"}, impl_lam[:400], (st, payload[:400]))
+        # ---- the whole query of the returned stream (Model/StreamQuery.lean): the MetaData wrappers sit on the source, one per
+        # attached dictionary, later ones outside, and the operator is applied to that (C09: placement)
+        qres = ctx.driver.batch(query_reqs)
+        for (case, _), want_q, (st, payload) in zip(keep, query_want, qres):
+            if want_q is None:
+                continue
+            ctx.dist["spec:whole-query-compared"] += 1
+            if (st, payload) != want_q:
+                ctx.disagree("streamOpQuery", {k: v for k, v in case.items() if k != "class_model"}, want_q[1][:500], (st, payload[:500]))
         # ---- the declared callback sites `effOf` (the specification of C09, Model/EffectSpec.lean) against the
         # implementation: whenever the implementation accepts the lambda, the MetaData on the source chain and the callbacks
         # that fired are the ones the specification lists for the lambda as written, in the same order
